@@ -18,6 +18,31 @@ func (c *Conn) InjectFragNeeded(mtu uint16, seq uint32) bool {
 	if c.EP != nil && c.established {
 		tcp.VerifTouch(c.EP)
 	}
+	c.N.L.Inject(netx.ProtoIPv4, c.fragNeeded(mtu, seq))
+	return true
+}
+
+// InjectFragNeededBurst delivers several ICMP messages back to back (packets built beforehand), so
+// that they are usually all recorded before the protocol goroutine, which has to be woken first,
+// applies any of them: they collapse into one notification, as messages from two routers do.
+func (c *Conn) InjectFragNeededBurst(seq uint32, mtus ...uint16) bool {
+	if c.Cfg.V6 {
+		return false
+	}
+	if c.EP != nil && c.established {
+		tcp.VerifTouch(c.EP)
+	}
+	var pkts [][]byte
+	for _, m := range mtus {
+		pkts = append(pkts, c.fragNeeded(m, seq))
+	}
+	for _, p := range pkts {
+		c.N.L.Inject(netx.ProtoIPv4, p)
+	}
+	return true
+}
+
+func (c *Conn) fragNeeded(mtu uint16, seq uint32) []byte {
 	th := make([]byte, 8)
 	binary.BigEndian.PutUint16(th[0:], c.LPort)
 	binary.BigEndian.PutUint16(th[2:], PeerPort)
@@ -30,6 +55,5 @@ func (c *Conn) InjectFragNeeded(mtu uint16, seq uint32) bool {
 	binary.BigEndian.PutUint16(icmp[6:], mtu)
 	icmp = append(icmp, orig...)
 	binary.BigEndian.PutUint16(icmp[2:], ^netx.Sum16(icmp, 0))
-	c.N.L.Inject(netx.ProtoIPv4, netx.IPv4Packet(c.src, c.dst, 1, 7, 0, 64, icmp))
-	return true
+	return netx.IPv4Packet(c.src, c.dst, 1, 7, 0, 64, icmp)
 }
